@@ -23,4 +23,4 @@ CONSTANTS
   NarrowSels <- NoNarrow
   KeyFam <- Fam
 INVARIANTS Inv_C01 Inv_C02 Inv_C03 Inv_C15 Inv_Clean Inv_IssueRel Inv_PresentRel EmitScenario
-CHECK_DEADLOCK FALSE
+CHECK_DEADLOCK TRUE
